@@ -119,7 +119,7 @@ class SymStep:
     """spec of one op over z3 bit-vectors of width N (N large enough that nothing wraps).
     V: array BV(N)->Bool, M: array BV(N)->BV(w) (w-bit words).  All results are z3 terms."""
 
-    def __init__(self, z3mod: Any, N: int, w: int, V: Any, M: Any, ip: Any, in_bit: Any, in_available: Any):
+    def __init__(self, z3mod: Any, N: int, w: int, V: Any, M: Any, ip: Any, in_bit: Any, in_available: Any, index_bits: Optional[int] = None):
         z3 = z3mod
         self.z3, self.N, self.w, self.ww = z3, N, w, w.bit_length() - 1
         bv = lambda v: z3.BitVecVal(v, N)  # noqa: E731
@@ -127,15 +127,24 @@ class SymStep:
         mask = bv((1 << w) - 1)
         ww = bv(self.ww)
 
-        sel = lambda Mx, a: z3.ZeroExt(N - w, z3.Select(Mx, a))  # noqa: E731
-        sto = lambda Mx, a, v: z3.Store(Mx, a, z3.Extract(w - 1, 0, v))  # noqa: E731
+        # memory arrays may be indexed by fewer bits than the arithmetic width N (the C engine: 64-bit word
+        # addresses, 72-bit arithmetic); an address beyond the index range is simply not valid
+        ib = index_bits or N
+        ix = (lambda a: a) if ib == N else (lambda a: z3.Extract(ib - 1, 0, a))  # noqa: E731
+        inrange = (lambda a: z3.BoolVal(True)) if ib == N else (lambda a: z3.Extract(N - 1, ib, a) == 0)  # noqa: E731
+        Varr = V
+        V = None
+        valid = lambda a: z3.And(inrange(a), z3.Select(Varr, ix(a)))  # noqa: E731
+        sel = lambda Mx, a: z3.ZeroExt(N - w, z3.Select(Mx, ix(a)))  # noqa: E731
+        sto = lambda Mx, a, v: z3.Store(Mx, ix(a), z3.Extract(w - 1, 0, v))  # noqa: E731
         self.sel = sel
+        self.ix = ix
 
         def getword(Mx, b):
             a = z3.LShR(b, ww) & mask
             off = b & bv(w - 1)
-            lo_ok = z3.Select(V, a)
-            hi_ok = z3.Select(V, a + 1)
+            lo_ok = valid(a)
+            hi_ok = valid(a + 1)
             top = a == mask
             aligned = off == 0
             fault = z3.If(aligned, z3.Not(lo_ok), z3.Or(top, z3.Not(lo_ok), z3.Not(hi_ok)))
@@ -153,12 +162,12 @@ class SymStep:
         self.eof = z3.And(self.reads, z3.Not(in_available))
         ia = bv((in_addr >> self.ww) & ((1 << w) - 1))
         ibit = bv(1 << (in_addr & (w - 1)))
-        self.in_fault = z3.And(self.reads, z3.Not(z3.Select(V, ia)))
+        self.in_fault = z3.And(self.reads, z3.Not(valid(ia)))
         self.in_faddr = ia << ww
         v0 = sel(M, ia)
         self.M1 = z3.If(self.reads, sto(M, ia, z3.If(in_bit, v0 | ibit, v0 & ~ibit & mask)), M)
         fa = z3.LShR(f, ww) & mask
-        self.flip_fault = z3.Not(z3.Select(V, fa))
+        self.flip_fault = z3.Not(valid(fa))
         self.flip_faddr = fa << ww
         self.M2 = sto(self.M1, fa, sel(self.M1, fa) ^ (bv(1) << (f & bv(w - 1))))
         self.j_fault, self.j_faddr, self.j = getword(self.M2, ip + bv(w))
